@@ -16,6 +16,9 @@ from vlib import dbfile
 from gen import dbgen, headers
 
 
+STALE_FLAG = []       # runs in which the error flag asked as the first query differed from the flag after the load
+
+
 def dbtool_rewrite(tool, ident, path, env=None, timeout=20):
     e = dict(os.environ)
     e.update(env or {})
@@ -23,10 +26,14 @@ def dbtool_rewrite(tool, ident, path, env=None, timeout=20):
         p = subprocess.run([tool, 'rewrite', str(ident), path], stdout=subprocess.PIPE, stderr=subprocess.PIPE, env=e, timeout=timeout)
     except subprocess.TimeoutExpired:
         return 'timeout', None, b''
-    err = None
+    err = first = None
     for ln in p.stderr.decode('latin-1').splitlines():
         if ln.startswith('ERR '):
             err = int(ln[4:])
+        if ln.startswith('ERRFIRST '):
+            first = int(ln[9:])
+    if err is not None and first is not None and first != err:
+        STALE_FLAG.append((path, first, err))
     return p.returncode, err, p.stdout
 
 
@@ -217,6 +224,12 @@ def main():
                       '(spaces, newlines, quotes, empty, bytes >= 0x80, digit strings) and random flag/field combinations written by the extracted model in minor 0..3; '
                       '(C) version/identifier gate; (D) every prefix of valid files. Non-trivial = distinct database/prefix that exercised the full comparison')
     ck.assumptions += ['dbtool (harness) drives libinterrogatedb through interrogate_request_module + InterrogateDatabase::write and the C query interface']
+    # the error flag is part of the query interface: asked as the very first query after a request it must already report a bad file
+    ck.count()
+    if STALE_FLAG:
+        pth, first, after = STALE_FLAG[0]
+        ck.spec_failure('error-flag:stale-as-first-query', 'interrogate_error_flag() as the first query after requesting %s answers %d, after another query %d (%d such runs)' %
+                        (os.path.basename(pth), first, after, len(STALE_FLAG)), {'kind': 'spec', 'cmd': 'dbtool rewrite <ident> <file>: ERRFIRST vs ERR', 'file_hex': open(pth, 'rb').read().hex()[:2000] if os.path.exists(pth) else None})
     ck.finish()
 
 
